@@ -152,6 +152,40 @@ fn check(ctx: &Ctx, c: &Case) -> PResult {
             None => return Err(Fail::new("range-shape-depends-on-values", "two builds differ in layout")),
         }
     }
+    // model-free adversary: decide the input, then re-solve the remaining
+    // wires row by row (arithmetic rows and base-4 steps) from the gadget's own
+    // table for this value and from the table of an in-range value
+    if !expected_sat {
+        let inp = g.handle_wit(2);
+        let mut starts: Vec<Vec<F>> = vec![g.wit.clone()];
+        let ov = f_of(f_int(&c.r.0).low_bits(w as u32));
+        let oop = if use_pairs {
+            Op::RangePairs { pairs: (w / 2) as u16, v: Fe(ov) }
+        } else {
+            Op::RangeBits { bits: w as u16, v: Fe(ov) }
+        };
+        if let Ok(other) = Gad::build(vec![oop], false) {
+            if let Some(asg) = gadget::transplant(&g, &other, &[inp]) {
+                starts.push(asg);
+            }
+        }
+        for st in starts {
+            for late in [true, false] {
+                ctx.add_evals(1);
+                ctx.label("adversary: propagation");
+                if let Some(a) = gadget::propagate(&g, &st, &[inp], late) {
+                    let real = g.prove_assignment(&a, c.seed)?;
+                    return Err(Fail::new(
+                        "range-resolved-wires-accepted",
+                        format!(
+                            "width {w}, value {} >= 2^{w}: with the input fixed the other wires can be re-solved row by row so that every identity holds (real prover+verifier: {real:?})",
+                            crate::fe::fe_short(&v)
+                        ),
+                    ));
+                }
+            }
+        }
+    }
     // adversarial accumulators on the unchanged layout
     let honest_vec = gadget::rc_vec(w, f_int(&v));
     if !g.role_model_matches(0, 1, &honest_vec) {
@@ -292,6 +326,6 @@ pub fn sweeps(ctx: &Ctx) {
 }
 
 pub fn describe(ctx: &Ctx) {
-    ctx.rule("cases: width 0..=256 (every width in the sweep) x value classes {0, 1, 2^w-1, 2^w, 2^w+1, r-1, k*2^w+j, around the 8-bit padding boundary, random below, random with one bit above, random} x entry point {bit-counted, pair-counted}; adversarial accumulator vectors on the unchanged layout {oversized top quad, one quad out of range, digits of v+r / v+2r, digits of another value, non-boolean top bit}. Oracle: reference row evaluator (cross-checked with the real prover on a sample): honest circuit satisfiable iff v < 2^w (w <= 254) / always (w >= 255); no adversarial vector satisfies when v >= 2^w; entry points emit identical layouts. non-trivial = value >= 2^(w-1) or out of range; distinct by (w, class, value, entry)");
+    ctx.rule("cases: width 0..=256 (every width in the sweep) x value classes {0, 1, 2^w-1, 2^w, 2^w+1, r-1, k*2^w+j, around the 8-bit padding boundary, random below, random with one bit above, random} x entry point {bit-counted, pair-counted}; adversarial accumulator vectors on the unchanged layout {oversized top quad, one quad out of range, digits of v+r / v+2r, digits of another value, non-boolean top bit} and the model-free propagation adversary (input fixed, every other wire re-solved row by row through arithmetic rows and base-4 steps, from the gadget's own table and from an in-range value's table). Oracle: reference row evaluator (cross-checked with the real prover on a sample): honest circuit satisfiable iff v < 2^w (w <= 254) / always (w >= 255); no adversarial vector satisfies when v >= 2^w; entry points emit identical layouts. non-trivial = value >= 2^(w-1) or out of range; distinct by (w, class, value, entry)");
     ctx.assume("role model of the range gadget's witness allocation is validated against the honest table per case; on mismatch only the honest tier runs");
 }
